@@ -61,14 +61,20 @@ def rand_name(rnd, nbytes=None):
     return s
 
 
+EDGE_IPS = [bytes([0, 0, 0, 0]), bytes([255] * 4), bytes([127, 0, 0, 1]), bytes([0, 0, 0, 1]), bytes([1, 0, 0, 0]), bytes([169, 254, 0, 1]),
+            bytes([224, 0, 0, 1]), bytes([192, 168, 1, 255]), bytes([10, 0, 0, 0]), bytes([255, 255, 255, 0])]
 def rand_desc(rnd, ty=None, on=None, nbytes=None):
     on = int(rnd.random() < .6 if on is None else on)
     rem = rnd.choice([0, 1, 59, 3600, 86399, rnd.randrange(86400)])
     if not on and rnd.random() < .5:                 # a device that is off may carry anything in its countdown field
         rem = rnd.choice([86400, 86401, 90000, 2 ** 31, 2 ** 32 - 1, rnd.randrange(86400, 2 ** 32)])
     dev_id = world.rand_bytes(rnd, 3) if rnd.random() < .7 else rnd.choice(ID_POOL)       # some ids recur with other addresses, names, families
-    return [ty or rnd.choice(TYPES), on, dev_id, rnd.randrange(256), rand_name(rnd, nbytes),
-            world.rand_bytes(rnd, 4), world.rand_bytes(rnd, 6), rnd.choice([0, 1, 219, 220, 2600, 65535, rnd.randrange(65536)]),
+    # every byte-valued field also at the values with a meaning elsewhere: unassigned / broadcast / loopback / multicast addresses, all-zero and all-one ids
+    ip = rnd.choice(EDGE_IPS) if rnd.random() < .3 else world.rand_bytes(rnd, 4)
+    mac = rnd.choice([bytes(6), b"\xff" * 6, b"\x01\x00\x5e\x00\x00\x01"]) if rnd.random() < .15 else world.rand_bytes(rnd, 6)
+    if rnd.random() < .1: dev_id = rnd.choice([bytes(3), b"\xff" * 3])
+    return [ty or rnd.choice(TYPES), on, dev_id, rnd.choice([0, 255, rnd.randrange(256), rnd.randrange(256)]), rand_name(rnd, nbytes),
+            ip, mac, rnd.choice([0, 1, 219, 220, 2600, 65535, rnd.randrange(65536)]),
             rem, rnd.choice([0, 3600, 86399, rnd.randrange(86400)]),
             rnd.choice([0, 1, 99, 100, rnd.randrange(101)]), rnd.choice(DIRS), rnd.choice(world.MODE_NAMES), rnd.choice([0, 255, 256, 65535, rnd.randrange(1000)]),
             rnd.choice([0, 16, 30, 255, rnd.randrange(256)]), rnd.choice(world.FAN_NAMES), int(rnd.random() < .5),
@@ -111,13 +117,16 @@ async def through_bridge(datagrams):
     try:
         for i, d in enumerate(datagrams):
             tx.sendto(d, ("127.0.0.1", port))
-            for _ in range(200):
+            for _ in range(200 if through_bridge.misses < 12 else 20):       # a bridge that drops much is not waited for at length again and again
                 if len(got) > i: break
                 await asyncio.sleep(0.001)
-            if len(got) <= i: got.append("not delivered")
+            if len(got) <= i: got.append("not delivered"); through_bridge.misses += 1
     finally:
         await bridge.stop(); tx.close(); await asyncio.sleep(0)
     return got
+
+
+through_bridge.misses = 0
 
 
 def run_stream(out, stream, cases, via_bridge=False):
